@@ -345,7 +345,7 @@ def jobs(tier):
                 out.append({'host': h, 'attrs': ['sym%d/%s' % (n, k)]})
                 out.append({'host': h, 'attrs': ['sym%d/%s' % (n, k), 'plain/d']})
         pal2 = ['class/d', 'class/s', 'style/d', 'key/d', 'ref/d', 'onClick/d', 'onFoo/d', 'onUpd/d', 'plain/d', 'plain/s', 'plain/co', 'ns/d', 'on/d', 'nativeOn/d',
-                'spread', 'vmodel', 'vmodelC', 'dir', 'vhtml', 'onobj'] if tier == 'quick' else pal
+                'spread', 'spreadO', 'vmodel', 'vmodelC', 'dir', 'vhtml', 'onobj'] if tier == 'quick' else pal
         for a, b in itertools.product(pal2, repeat=2):
             na = a.split('/')[0]; nb = b.split('/')[0]
             if na == nb and na in ('key', 'ref', 'plain', 'ns', 'on', 'nativeOn', 'onclick', 'onUpd', 'vmodel', 'vmodelC', 'vmodelS', 'vhtml', 'vtext'):
